@@ -497,6 +497,17 @@ def resolveTransforms (pr : PAR) (width height : Rat) : Option VB → XF
       | .min => 0
     ⟨sx, sy, tx - vb.x * sx, ty - vb.y * sy⟩
 
+/-- `svg.draw` on the ROOT element: its viewBox, or — without one — the synthetic `(0 0 width height)` when
+    NEITHER of the root's width / height is a percentage or absent (`w`, `h` = the resolved absolute lengths) -/
+def rootViewBox (vb : Option VB) (w h : Option Rat) : Option VB :=
+  match vb, w, h with
+  | some v, _, _ => some v
+  | none, some w, some h => some ⟨0, 0, w, h⟩
+  | none, _, _ => none
+
+def rootTransform (pr : PAR) (W H : Rat) (vb : Option VB) (w h : Option Rat) : XF :=
+  resolveTransforms pr W H (rootViewBox vb w h)
+
 /-- `parsePreserveAspectRatio` (parser.go): split on single spaces; positions only from an 8-byte align -/
 def splitSpace : List Char → List (List Char)
   | [] => [[]]
